@@ -19,6 +19,7 @@ type c18Case struct {
 	CloseAt   string `json:"closeat"`         // before-grant | at-timeout-tick | after-timeout
 	SelfQueue bool   `json:"selfq,omitempty"` // the victim also leaves a request queued behind its OWN hold on key 1 (granted by its will unlock)
 	Reconnect string `json:"reconnect"`       // no | before-late-reply | after-late-reply | before-close (the new connection announces the id while the old one is still open)
+	Admin     bool   `json:"admin,omitempty"` // text commands issued in the admin text mode of a BINARY connection (COMMAND_ADMIN)
 	DudWill   string `json:"dud,omitempty"`   // a will that cannot do anything is registered FIRST: unlock-unused-db | lock-db255 | unlock-missing-key
 }
 
@@ -29,6 +30,9 @@ func (k c18Case) name() string {
 	}
 	if k.DudWill != "" {
 		n += "/first-will-" + k.DudWill
+	}
+	if k.Admin {
+		n += "/admin-text-mode"
 	}
 	return n
 }
@@ -56,6 +60,11 @@ func c18Cases(quick bool) []EnumCase {
 								k.SelfQueue = true
 								out = append(out, mkCase(k.name(), k))
 								k.SelfQueue = false
+							}
+							if text && wills >= 1 && wills <= 2 && at == "before-grant" && cause == "client-close" {
+								k.Admin = true
+								out = append(out, mkCase(k.name(), k))
+								k.Admin = false
 							}
 							if !text && wills >= 1 && at == "before-grant" && rc == "no" {
 								for _, dud := range []string{"unlock-unused-db", "lock-db255", "unlock-missing-key"} {
@@ -113,6 +122,13 @@ func evalC18(c *Ctx, cs EnumCase) EnumResult {
 		// the victim connection
 		v, _ := wire.Dial(addr)
 		if k.Text {
+			if k.Admin {
+				_ = v.Send(make64(protocol.COMMAND_ADMIN))
+				if rs := v.TakeBin(); len(rs) != 1 || rs[0].Result != 0 {
+					engErr = fmt.Sprintf("COMMAND_ADMIN answered %s", binStr(rs))
+					return
+				}
+			}
 			_ = v.Send(wire.Resp("LOCK", "\x00\x00\x00\x00\x00\x00\x00\x00\x00\x00\x00\x00\x00\x00\x00\x01", "LOCK_ID", "v1", "TIMEOUT", "0", "EXPRIED", "8"))
 			v.TakeText()
 			for i := 0; i < k.Wills; i++ {
